@@ -16,6 +16,7 @@ pub fn prop() -> Prop {
                Everything runs inside catch_unwind in sharded processes; a panic or a shard killed by a signal is a violation; every failure must surface as Err(SimErr). verif and release profiles. Non-trivial = machine that executed at least one step; distinct = machine seed.",
         assumptions: &["x86-64; two build profiles (verif, release)"],
         also_release: true, abort_is_violation: true, run, guard,
+        stages: || vec![st("asan", "", 400, 4, 1500)],
         level_text: "Fault enumeration at run time: thousands (quick) to hundreds of thousands (thorough) of random hostile machine states driven through every execution API under a panic/abort monitor in two build profiles; thorough adds an ASan stage.",
         level_note: "Sampling; 'never panics' is decided for the states generated and the two profiles run.",
         technique: "panic/abort monitor over random machine states (state fuzzing), two profiles",
